@@ -431,7 +431,13 @@ func (r *report) replayPath(p, name string) string {
 		for i := 0; i < len(name); i++ {
 			h = (h ^ uint32(name[i])) * 16777619
 		}
+		if len(base) > 150 {
+			base = base[:150] // file names are limited to 255 bytes
+		}
 		base = fmt.Sprintf("%s-%08x", base, h)
+	}
+	if len(base) > 200 {
+		base = base[:200]
 	}
 	return filepath.Join(dir, base+".json")
 }
